@@ -206,8 +206,11 @@ class Ed25519Key(PKey):
         if self._get_sig_algorithm(msg) != self.name:
             return False
 
+        sig = self._get_sig_blob(msg)
+        if sig is None:
+            return False
         try:
-            self._verifying_key.verify(data, msg.get_binary())
+            self._verifying_key.verify(data, sig)
         except (nacl.exceptions.BadSignatureError, nacl.exceptions.ValueError):
             # ValueError: the signature is not exactly 64 bytes long
             return False
